@@ -110,11 +110,13 @@ class Sc:
         # (suffix, n): the caller's trace callback raises TraceBoom at the n-th event whose name ends with the suffix
         self.trace_raise = tuple(trace_raise) if trace_raise else None
         self.trace_raise_seen = 0
+        self.trace_raise_fired = None
 
-    def _trace_boom(self, name):
-        if self.trace_raise is not None and name.endswith(self.trace_raise[0]):
+    def _trace_boom(self, name, call="victim"):
+        if self.trace_raise is not None and call == "victim" and name.endswith(self.trace_raise[0]):
             self.trace_raise_seen += 1
             if self.trace_raise_seen == self.trace_raise[1]:
+                self.trace_raise_fired = name
                 raise TraceBoom(f"trace callback failed at {name}")
 
     def url(self, host="o.test", path="/x"):
@@ -127,7 +129,7 @@ class Sc:
         if is_async(self.flavor):
             async def trace(name, info):
                 _trace(ph, name, info, self)
-                self._trace_boom(name)
+                self._trace_boom(name, call)
                 if self.trace_yields:
                     # a caller's trace callback that awaits something: one more suspension point - between an operation
                     # and whatever the library does with its result - at which a cancellation can arrive
@@ -135,7 +137,7 @@ class Sc:
         else:
             def trace(name, info):
                 _trace(ph, name, info, self)
-                self._trace_boom(name)
+                self._trace_boom(name, call)
         ext = {"trace": trace}
         if self.timeouts:
             ext["timeout"] = dict(self.timeouts)
@@ -257,6 +259,10 @@ async def run_injected(flavor: str, ctype: str, shape: str, context: str, inject
                 return False
             seen_at.setdefault("n0", n)
             return n >= seen_at["n0"] + j - 1
+    elif inject is not None and inject[0] == "trace-raise":
+        # the victim's own trace callback raises at the n-th event with the given suffix: a failure between two steps of
+        # the library, at a place where no network operation and no suspension point need be
+        sc.trace_raise = (inject[1], inject[2])
     elif inject is not None:
         style, k = inject[1], inject[2]
 
@@ -348,6 +354,9 @@ async def run_injected(flavor: str, ctype: str, shape: str, context: str, inject
         res["fired"] = bool(net.fault_fired)
     if inject and inject[0] == "fault+cancel":
         res["fault_fired"] = bool(net.fault_fired)
+    if inject and inject[0] == "trace-raise":
+        res["fired"] = sc.trace_raise_fired is not None
+        res["inj_phase"] = sc.trace_raise_fired
     ph = sc.phase.get("victim")
     res["phase"] = ph["cur"] if ph else None
     return res
